@@ -18,6 +18,10 @@ by the margin thr = (best - worst) / 8 >= max|score| / 256 -- otherwise the camp
 --, (2) the code's argmax over ALL guesses is the expected key, (3) the code's scores agree with the model's within thr / 4.
 camp_wiring additionally checks the shape of the simulation on the data: traces = gain * leak + noise in [-a, a].
 The harness evaluates the same verdict independently (integer sums, fractions) and Coq cross-checks it.
+
+Second kind, campaign HISTORIES: one selection function object and one model object re-used for 2-3 campaigns under different
+keys / plaintext sets / batch sizes, compute_expected_key asked before the run, after it and once more, attack objects run()
+twice on containers of the same key; every campaign of the history is certified as above (state kept between campaigns).
 """
 import math
 import os
